@@ -41,17 +41,17 @@ def families(ctx):
         # 1-2 fields: everything (all four kinds, one-member groups, q with requirements), both variants
         fam("n1", 1, N=1, kinds=BSI + ["m"], maxmand=1, reqsets=0, reqs=0, owners=1, maxxor=2, mingroup=1, maxgroup=1)
         fam("n2", 2, N=2, kinds=BSI + ["m"], maxmand=1, reqsets=2, reqs=2, owners=2, maxxor=2, mingroup=1, maxgroup=2)
-        # 3 fields, complete: requires (<=2 sets of <=2) x second owner x <=2 xor groups
-        fam("n3", 9, both=False, N=3, kinds=BSI, reqsets=2, reqs=2, owners=2, maxxor=2, mingroup=2, maxgroup=3)
+        # 3 fields: requires (<=2 sets of <=2) x second owner x <=1 group, and requires x <=2 groups
+        fam("n3", 9, both=False, N=3, kinds=BSI, reqsets=2, reqs=2, owners=2, maxxor=1, mingroup=2, maxgroup=3)
+        fam("n3x", 9, both=False, N=3, kinds=BSI, reqsets=2, reqs=2, owners=1, maxxor=2, mingroup=2, maxgroup=3)
         # 3 fields with a mandatory one and one-member groups
         fam("n3m", 3, N=3, kinds=["b", "s", "m"], maxmand=1, reqsets=1, reqs=2, owners=1, maxxor=1, mingroup=1, maxgroup=3)
         # 4 fields: full requires space; one requirement set x one group; one requirement x two groups;
-        # two groups of any size; all three kinds with one requirement and one group
+        # two groups of any size
         fam("n4r", 4, both=False, N=4, kinds=BS, reqsets=2, reqs=2, owners=1, maxxor=0, mingroup=2, maxgroup=2)
         fam("n4rx", 8, both=False, N=4, kinds=BS, reqsets=1, reqs=2, owners=1, maxxor=1, mingroup=2, maxgroup=4)
         fam("n4x", 8, both=False, N=4, kinds=BS, reqsets=1, reqs=1, owners=1, maxxor=2, mingroup=2, maxgroup=2)
         fam("n4g", 8, both=False, N=4, kinds=BS, reqsets=0, reqs=0, owners=1, maxxor=2, mingroup=2, maxgroup=4)
-        fam("n4i", 9, both=False, N=4, kinds=BSI, reqsets=1, reqs=1, owners=1, maxxor=1, mingroup=2, maxgroup=2)
         # 5 fields: two seed-chosen kind vectors of the 32 (the only family not enumerated completely)
         fam("n5", 32, pick=2, both=False, N=5, kinds=BS, reqsets=1, reqs=2, owners=1, maxxor=1, mingroup=2, maxgroup=3)
     else:
@@ -99,7 +99,7 @@ def run(ctx):
     ctx.extra["selftest_s"] = round(time.time() - ctx.t0, 1)
     fams = families(ctx)
     n_jobs = sum(len(s) for _, s in fams)
-    total_ctx = 900 if ctx.thorough else 25
+    total_ctx = 600 if ctx.thorough else 25
     jobs = []
     for f, shards in fams:
         for sh in shards:
